@@ -149,6 +149,19 @@ CHECKS = {
              "the result class, the active version, the rate and whether the logger was swapped.",
         note=TLC_BASE + "; free-running schedules are sampled; the reloader's sleep loop is not driven in the quick tier",
         design="7/C15"),
+    "C19": dict(
+        category="model_checking",
+        technique="TLA+ spec (EnvExpand.tla: single-pass meaning + scanner machine) model-checked by TLC over all token "
+                  "sequences of the bound; every input replayed at the three call sites in a child process",
+        text="EnvExpand.tla defines the expansion as one left-to-right pass (well-formed reference to a set variable -> "
+             "value, everything else copied) and as a scanner step machine; TLC checks ScannerIsMeaning, NoRefNoChange "
+             "and PrefixStable over all sequences of <= 4/5 tokens from a curated set in which whole references are "
+             "single tokens. Every input is then used as FileAppender path, RollingFileAppender path and "
+             "FixedWindowRoller pattern in a child process with the environment of the model, and the created file "
+             "must be at the expanded location (also shown by the appender's Debug).",
+        note=TLC_BASE + "; values free of '$'; non-ASCII letters are represented by ASCII placeholders in the spec and "
+             "substituted by the harness",
+        design="7/C19"),
 }
 
 NOT_YET = "check not built yet in this round (planned, see DESIGN.md section 7)"
